@@ -22,6 +22,18 @@ Saturation cut-off (spec/Saturation.tla, MC_Saturation.tla, Trace_Saturation.tla
       CIA, Rayleigh) whose spectra have saturated bands and transparent windows in the same
       layer: full grid vs. sub-grid vs. observation-restricted, judged per layer and per point;
       every layer of every run pair is a trace event validated by TLC (+ canaries).
+Histories (spec/GridHistory.tla, MC_GridHistory.tla, EX_GridHistory.tla, Trace_GridHistory.tla, Functional.tla): the
+      statement quantifies over grids, not over what the model object did before.  Design level: a memo of a per-grid
+      quantity (clipped grid, stellar SED, opacity selection) kept on a long-lived model is accepted when keyed on the
+      requested points (+ cutoff flag) and REFUTED (17 mutants, one TLC run per window alphabet) when keyed on the
+      size, the first point, the requested end points, the points without the flag, or kept across a full-grid run.
+      Binding C: TLC exports the behaviours of the memo-free design (all sequences of 2-3 requests over the alphabet:
+      same size elsewhere / same start other length / same end points other density / between native points /
+      cutoff_grid=False / no grid) with the grid each evaluation must return; they are replayed on ONE real emission,
+      direct-image and transmission model each (harness/fx_c13hist.py) and every evaluation must equal the FULL
+      native computation of a fresh model at those points.  TLC-generated set/eval walks (harness/history.py) change
+      the request, the temperature and a mixing ratio of one long-lived model; every evaluation equals a freshly
+      built model's and is a trace event whose clip TLC re-evaluates (Trace_GridHistory.tla, + canaries).
 """
 import random
 import re
@@ -901,6 +913,185 @@ def run_saturation(ctx, results, q):
 
 
 # ----------------------------------------------------------------------------
+# histories: one long-lived model evaluated on a sequence of requests (spec/GridHistory.tla)
+# ----------------------------------------------------------------------------
+
+HIST_MUTANTS = tuple('Ref_request_%s_%s' % (k, q) for k in ('size', 'first', 'ends', 'points') for q in ('grid', 'sed', 'op')) + \
+    tuple('Ref_clip_%s_%s' % (k, q) for k in ('size', 'first') for q in ('sed', 'op')) + ('Ref_kept_across_full',)
+HIST_ALPHABETS = ('U', 'G')
+
+
+def hist_jobs(tier):
+    """(label, module, cfg, workers, extra) -- started first: the walks below run while the other TLC jobs are busy"""
+    jobs = [('export-history-%s' % a, 'EX_GridHistory', 'EX_GridHistory_%s_%s.cfg' % (a, tier), 1, None) for a in HIST_ALPHABETS]
+    jobs += [('history-design-%s' % a, 'MC_GridHistory', 'MC_GridHistory_%s.cfg' % a, 2, ['-continue']) for a in HIST_ALPHABETS]
+    return jobs
+
+
+def check_history_design(ctx, label, res):
+    """one TLC run (-continue): the Hold* invariants hold for the memo-free design and for memos keyed on the requested
+    points; exactly the 17 under-keyed memos are refuted by the window alphabet"""
+    ctx.add_tlc(label, res)
+    got = set(re.findall(r'Invariant (\S+) is violated', res.out))
+    if got != set(HIST_MUTANTS):
+        raise Machinery('GridHistory (%s): expected TLC to refute exactly the %d memo mutants; not refuted %r, unexpectedly violated %r'
+                        % (label, len(HIST_MUTANTS), sorted(set(HIST_MUTANTS) - got), sorted(got - set(HIST_MUTANTS))))
+    if res.distinct == 0 or res.depth < 4:
+        raise Machinery('vacuous: GridHistory (%s) explored %d states to depth %d' % (label, res.distinct, res.depth))
+
+
+def hist_fixture(ctx, exports):
+    from .. import fx_c13hist as fh
+    alphas, behs = [], {}
+    for a in HIST_ALPHABETS:
+        res = exports[a]
+        if res.violated:
+            raise Machinery('EX_GridHistory (%s) violates %s\n%s' % (a, res.violated, res.error_trace))
+        rec = res.tagged('ALPHA')
+        if len(rec) != 1:
+            raise Machinery('EX_GridHistory (%s) exported %d alphabets' % (a, len(rec)))
+        alphas.append(fh.Alphabet(rec[0]))
+        behs[a] = res.tagged('BEH')
+        if len(behs[a]) < 100:
+            raise Machinery('too few behaviours exported by EX_GridHistory (%s): %d' % (a, len(behs[a])))
+    return fh, fh.Fixture(ctx, alphas), behs
+
+
+def validate_hist_events(ctx, fxh, canary=True):
+    """binding B: TLC re-evaluates the clip of every logged request and judges every evaluation against the full run"""
+    if not fxh.events:
+        if canary:
+            raise Machinery('no history evaluation was logged')
+        return {}
+    evs = [dict(e, id=i) for i, (e, _, _, _) in enumerate(fxh.events)]
+    _, bad, res = validate_trace('Trace_GridHistory', 'Trace_GridHistory.cfg', evs, timeout=900)
+    ctx.add_tlc('trace-grid-history', res, counts=False)
+    if res.postcondition_false and not bad:
+        raise Machinery('history trace spec did not consume the whole trace:\n' + res.out[-1500:])
+    classes = {c['id']: c['cls'] for c in res.tagged('CLS')}
+    if len(classes) != len(evs):
+        raise Machinery('history trace spec classified %d of %d events' % (len(classes), len(evs)))
+    why = {}
+    for x in bad:
+        why.setdefault(x['id'], []).append(x['why'])
+    ctx.traces += len(evs)
+    count = {}
+    for e, (_, name, detail, vec) in zip(evs, fxh.events):
+        c = classes[e['id']]
+        kind = name.split(':')[0]
+        count[(kind, c)] = count.get((kind, c), 0) + 1
+        w = why.get(e['id'], [])
+        ctx.verdict('trace_history_equals_full', not w, cls='histtrace:%s:%s' % (name, c),
+                    detail='TLC rejected %r: returned native[%r..%r] (%d points); %s' % (w, e['lo'], e['hi'], e['n'], detail), vector=vec)
+    ctx.note('history evaluations by class (TLC): %r' % ({'%s:%s' % k: v for k, v in sorted(count.items())},))
+    if not canary:
+        return count
+    if not ctx.has_violations():
+        for kind in ('emission', 'direct', 'transmission'):
+            if not count.get((kind, 'same-size-elsewhere')):
+                raise Machinery('vacuous: no %s evaluation of class same-size-elsewhere in the history walks' % kind)
+        for c in ('after-full-grid', 'full-after-window', 'same-start-other-length', 'same-grid-again'):
+            if not any(k[1] == c for k in count):
+                raise Machinery('vacuous: no evaluation of class %s in the history walks' % c)
+    good = [e for e in evs if e['id'] not in why and classes[e['id']] != 'first-evaluation' and e['oc'] and e['cut']]
+    if good:
+        c1 = dict(good[0], dev=good[0]['tol'] + 5)                         # a value off by 1.5e-12
+        c2 = dict(good[-1], lo=good[-1]['lo'] + 1, id=good[-1]['id'] + len(evs))   # a grid shifted by one native point
+        _, bad2, _ = validate_trace('Trace_GridHistory', 'Trace_GridHistory.cfg', [c1, c2])
+        got = {(x['id'], x['why']) for x in bad2}
+        if (c1['id'], 'value') not in got or (c2['id'], 'clip') not in got:
+            raise Machinery('canary accepted: history trace validation is vacuous (%r)' % (sorted(got),))
+    elif not ctx.has_violations():
+        raise Machinery('no accepted restricted evaluation available for the history canary')
+    return count
+
+
+def run_histories(ctx, exports, q):
+    from .. import history
+    fh, fxh, behs = hist_fixture(ctx, exports)
+    rng = random.Random(ctx.seed * 6007 + 29)
+    nbeh = 0
+    try:
+        # binding C: every exported behaviour on one long-lived model of every kind
+        for a in HIST_ALPHABETS:
+            alpha = fxh.alphas[a]
+            for i, b in enumerate(behs[a]):
+                for kind in fh.KINDS:
+                    if q and len(b['evals']) == 3 and (i + fh.KINDS.index(kind)) % 3:
+                        continue                                   # quick: a behaviour with the full grid in between on one kind
+                    T = rng.choice(fh.T_VALUES[kind])
+                    mix = rng.choice(fh.MIX_VALUES[kind])
+                    fh.replay_behaviour(fxh, alpha, kind, T, mix, b['evals'])
+                    nbeh += 1
+        # Functional walks: request, temperature and mixing ratio change on one long-lived model
+        scs = fh.scenarios(fxh, thorough=not q)
+        nw = history.run_history(ctx, scs, 8 if q else 30)
+        for s in scs:
+            if s.evals == 0 and not ctx.has_violations():
+                raise Machinery('history scenario %s was never evaluated' % s.name)
+        validate_hist_events(ctx, fxh)
+    finally:
+        fh.install([])
+    if fxh.not_thin and not ctx.has_violations():
+        raise Machinery('history fixtures are not optically thin (the exp(-10) cut-off could fire): %r' % (fxh.not_thin[:3],))
+    ctx.note('histories: %d behaviours of EX_GridHistory replayed on long-lived models, %d set/eval walks over %d scenarios, '
+             '%d trace events, %d full-grid references of fresh models' % (nbeh, nw, len(scs), len(fxh.events), fxh.nrefs))
+    ctx.add_sample(dict(history_event={k: (v if not isinstance(v, list) or len(v) < 8 else v[:8] + ['...']) for k, v in fxh.events[0][0].items()},
+                        behaviour=behs['U'][-1]))
+
+
+def replay_histories(ctx, vs):
+    """--replay: behaviours and walks recorded in the evidence"""
+    from ..history import digest
+    exports = {a: run_tlc('EX_GridHistory', 'EX_GridHistory_%s_thorough.cfg' % a, workers=1, allow_violation=True) for a in HIST_ALPHABETS}
+    fh, fxh, _ = hist_fixture(ctx, exports)
+    try:
+        scs = {x.name: x for x in fh.scenarios(fxh, thorough=True)}
+        seen = set()
+        for v in vs:
+            vec = v['vector']
+            key = repr(sorted((k, repr(x)) for k, x in vec.items()))
+            if key in seen:
+                continue
+            seen.add(key)
+            if vec.get('kind') == 'hbeh':
+                fh.replay_behaviour(fxh, fxh.alphas[vec['alphabet']], vec['model'], vec['T'], vec['mix'], vec['evals'])
+                continue
+            if vec.get('kind') == 'hfull':
+                fxh.full(fxh.alphas[vec['alphabet']], vec['model'], vec['T'], vec['mix'])
+                continue
+            sc = scs.get(vec.get('history'))
+            if sc is None:
+                raise Machinery('replay: unknown history scenario %r' % (vec.get('history'),))
+
+            def value(d, text):
+                for x in sc.dims[d]:
+                    if repr(x) == text or x == text or repr(x) == repr(text):
+                        return x
+                raise Machinery('replay: %r is not a value of setting %d of %s' % (text, d, sc.name))
+            vals = [value(d, x) for d, x in enumerate(vec['init'])]
+            obj = sc.fresh(list(vals))
+            ok = True
+            for step in vec['trail']:
+                if step.startswith('set'):
+                    d, text = step[3:].split('=', 1)
+                    vals[int(d)] = value(int(d), text)
+                    sc.set(obj, int(d), vals[int(d)], list(vals))
+                elif step.startswith('eval'):
+                    try:
+                        ok = digest(sc.observe(obj)) == digest(sc.observe(sc.fresh(list(vals)))) and ok
+                    except Machinery:
+                        raise
+                    except Exception:
+                        ok = False
+            ctx.verdict('history_independent', ok, cls='%s:replay' % sc.name,
+                        detail='replay of the walk %r from %r' % (vec['trail'], vec['init']), vector=vec)
+        validate_hist_events(ctx, fxh, canary=False)
+    finally:
+        fh.install([])
+
+
+# ----------------------------------------------------------------------------
 
 def counterexample_text(res):
     nat = re.findall(r'nat = (<<[^>]*>>)', res.error_trace)
@@ -928,7 +1119,14 @@ def run(ctx):
     ctx.bounds['saturation'] = ('all patterns of optical depths {0,1,(6,)12} x 2-3 contributions x 3-4 wavenumber zones, every computed '
                                 'subset / sub-range / observation clip (TLC); real Transmission and Emission models with 2-4 '
                                 'contributions (molecules, user-defined table, CIA, Rayleigh) on different grids, 5-10 layers')
-    ctx.assumptions = ['the exp(-10) licence is a per-point slack: a contribution (transmission) or a layer term (emission) may be '
+    ctx.bounds['histories'] = ('all sequences of 2 requests (quick: plus 3 with the full grid in between; thorough: all of 3) over 8 requests x 2 '
+                               'window alphabets (uniform and constant-resolution-like 20-point native grids, second molecule on 6-7 '
+                               'points) on 6-layer emission / direct-image / transmission models; TLC-generated walks (depth 9) over '
+                               'request x temperature x mixing ratio')
+    ctx.assumptions = ['histories: every model object owns its cross-section objects (installed in the OpacityCache singleton through '
+                       'clear_cache / add_opacity for its own evaluations); optically thin fixtures (the licensed cut-off never fires): '
+                       'equality to 1e-12 with the full native computation of a freshly built model',
+                       'the exp(-10) licence is a per-point slack: a contribution (transmission) or a layer term (emission) may be '
                        'missing at a wavenumber only where the layer is darker than exp(-10) at that wavenumber; elsewhere 1e-12',
                        'optical depths a contribution adds to a layer are measured with its own contribute() on the full grid',
                        'cross-section tables constant in T and P (the T,P interpolation is the subject of C04)',
@@ -963,7 +1161,23 @@ def run(ctx):
                  ('export-EX_Saturation_4.cfg', 'MC_Saturation', 'EX_Saturation_4.cfg', 1, None)]
     from concurrent.futures import ThreadPoolExecutor
     pool = ThreadPoolExecutor(max_workers=8)
+    hjobs = hist_jobs(t)
+    hfuts = {j[0]: pool.submit(run_tlc, j[1], j[2], workers=j[3], allow_violation=True, timeout=1500, extra=j[4]) for j in hjobs}
     futs = {j[0]: pool.submit(run_tlc, j[1], j[2], workers=j[3], allow_violation=True, timeout=1500) for j in jobs}
+    # ---- histories: replayed while the exhaustive TLC jobs are running
+    try:
+        exports = {a: hfuts['export-history-%s' % a].result() for a in HIST_ALPHABETS}
+        for a in HIST_ALPHABETS:
+            ctx.add_tlc('export-history-%s' % a, exports[a])
+        run_histories(ctx, exports, q)
+        _t(ctx, 'histories done')
+        for a in HIST_ALPHABETS:
+            check_history_design(ctx, 'history-design-%s' % a, hfuts['history-design-%s' % a].result())
+    except BaseException:
+        for f in list(hfuts.values()) + list(futs.values()):
+            f.cancel()
+        pool.shutdown(wait=True)
+        raise
     results = {}
     for label, module, cfg, _, refute in jobs:
         res = futs[label].result()
@@ -1008,8 +1222,11 @@ def run(ctx):
 def replay(ctx, violations):
     rng = random.Random(1)
     tr, sat = [], []
+    hist = [v for v in violations if (v['vector'] or {}).get('history') or (v['vector'] or {}).get('kind') in ('hbeh', 'hfull')]
+    if hist:
+        replay_histories(ctx, hist)
     for v in violations:
-        vec = v['vector']
+        vec = v['vector'] or {}
         kind = vec.get('kind')
         if kind == 'sel':
             judge_sel(ctx, vec, vec['layout'], vec['scale'], vec['offset'])
